@@ -1039,6 +1039,13 @@ class VMDKInspector(FileInspector):
         if not self.desc_text:
             raise SafetyViolation(_('No descriptor found'))
 
+        if (not self.has_region('header') and
+                self._total_count > len(self.region('descriptor').data)):
+            # A text-only descriptor is parsed from what the first read(s)
+            # provided. If the stream went on after that, there is content
+            # we have not examined, so we cannot vouch for it.
+            raise SafetyViolation(_('Descriptor was not examined completely'))
+
         extent_access = ('rw', 'rdonly', 'noaccess')
         header_fields = []
         extents = []
